@@ -168,6 +168,9 @@ def _run(eng, world, contracts, qual, res, timeout_ms, concretise, keep_smt, onl
     if con.axioms:
         for a_ in con.axioms(cx):
             st.assume(a_)
+    if con.heap_axioms:
+        for a_ in con.heap_axioms(eng, st):
+            st.assume(a_)
     for it in pre:
         st.assume(it[1] if isinstance(it, tuple) else it)
     cx.st0 = st.fork()
@@ -237,6 +240,18 @@ def _run(eng, world, contracts, qual, res, timeout_ms, concretise, keep_smt, onl
             seen.add(key)
             eng.obls.append(Obligation('%s/frame:%s[path %d]' % (qual, f, npaths), pcw, r >= ap0, 'frame',
                                        {'path': npaths, 'field': f}))
+        if con.preserves:
+            # the contract promises callers that shape facts survive the call: every write to a pre-existing
+            # object must then be outside the footprint of those facts
+            from specs.wf import fp as _fp
+            seenw = set()
+            for (f, r, pcw) in s.ghost.get('$writes', []):
+                rs = z3.simplify(r)
+                if eng._is_alloc_term(rs) or rs.get_id() in seenw:
+                    continue
+                seenw.add(rs.get_id())
+                eng.obls.append(Obligation('%s/preserves-footprint:%s[path %d]' % (qual, f, npaths), pcw,
+                                           z3.Or(r >= ap0, z3.Not(_fp(r))), 'frame', {'path': npaths}))
         if con.frame:
             for f in mods:
                 for i, g in enumerate(con.frame(cx, f, cx.st0.H(f), s.H(f))):
